@@ -488,6 +488,9 @@ class CSSParser:
         if not op:
             # Attribute name
             pattern = None
+        elif op[0] in '^$*' and not value:
+            # `^=`, `$=` and `*=` with an empty value match nothing
+            pattern = re.compile(r'[^\s\S]', flags)
         elif op.startswith('^'):
             # Value start with
             pattern = re.compile(r'^%s.*' % re.escape(value), flags)
